@@ -1443,3 +1443,9 @@ M("C12-identifier-mismatch-still-read", "C12", "src/interrogatedb/interrogateDat
   "            set_error_flag(true);\n\n          } else if (_file_major_version != _current_major_version ||",
   "            set_error_flag(true);\n          }\n\n          if (_file_major_version != _current_major_version ||",
   expect="R12.4|load_latest|no-read-on-identifier-mismatch")
+
+# ---------------------------------------------------------------- R11.8 (F-C11c known): a second early emission must still be reported
+M("C11-c-maker-emits-next-index-early", "C11", "src/interrogate/interfaceMakerC.cxx",
+  "void InterfaceMakerC::\nwrite_prototypes(ostream &out,ostream *out_h) {\n",
+  "void InterfaceMakerC::\nwrite_prototypes(ostream &out,ostream *out_h) {\n  out << \"/* next index \" << InterrogateDatabase::get_ptr()->get_next_index() << \" */\\n\";\n",
+  expect="R11.8|write_code|InterfaceMakerC::write_prototypes")
